@@ -1,0 +1,31 @@
+//! Verification hooks, compiled only with `--cfg turmoil_verif`.
+//!
+//! * a thread-local *chooser* that, when installed, answers the random variates the
+//!   properties quantify over (link failure / repair coins, the latency variate, the
+//!   order in which running hosts are ticked) instead of the seeded rng. With no
+//!   chooser installed the code paths are exactly the original ones.
+//! * read-only per-host socket table counts.
+
+use std::cell::RefCell;
+
+/// `(site, n) -> choice in 0..n`
+pub type Chooser = Box<dyn FnMut(&'static str, usize) -> usize>;
+
+thread_local! {
+    static CHOOSER: RefCell<Option<Chooser>> = const { RefCell::new(None) };
+}
+
+/// Install (or remove, with `None`) the chooser for this thread.
+pub fn set_chooser(c: Option<Chooser>) {
+    CHOOSER.with(|s| *s.borrow_mut() = c);
+}
+
+pub(crate) fn choose(site: &'static str, n: usize) -> Option<usize> {
+    CHOOSER.with(|s| {
+        let mut g = s.borrow_mut();
+        g.as_mut().map(|f| f(site, n))
+    })
+}
+
+/// Latency variate alphabet offered to the chooser (multiples of the min..max range).
+pub const LATENCY_MULTS: [f64; 5] = [0.0, 0.25, 0.5, 1.0, 4.0];
